@@ -5,6 +5,7 @@ CONSTANTS
   ArgvSet <- MCArgvSet
   MaxParses = 1
   EnvChanges = FALSE
+  LetterAdds <- MCLetterAdds
   Vals <- MCVals
   MaxMulti = 2
   MaxPos = 2
